@@ -1,5 +1,5 @@
 (* Properties_C04.v — end to end, browsers converge to the services actually offered (partial). *)
-From QV Require Import Base Fields SrcFacts Msg SrcDecisions Cache CacheSpec Sim Prober Hostname Provider ProviderSpec ProviderListener Browser BrowserProofs NetProofs NetHop NetPair NetLag.
+From QV Require Import Base Fields SrcFacts Msg SrcDecisions Cache CacheSpec Sim Prober Hostname Provider ProviderSpec ProviderListener Browser BrowserProofs NetProofs NetHop NetPair NetLag NetTwo.
 From QV Require Import Decoder Encoder WireSpec WireMsg DecoderMsg EncoderMsg.
 Local Open Scope Z_scope.
 
@@ -324,3 +324,31 @@ Theorem C04_other_type_ignored_partial now (ptr srv txt : record) (T T' nm : lis
   browser_on_message now 0 (mkMessage addr port id true false [] [ptr; srv; txt]) (mkWorld [c] [b] 0) = (mkWorld [c] [b] 0, []).
 Proof. exact (other_type_ignored now ptr srv txt T T' nm addr port id c b). Qed.
 Print Assumptions C04_other_type_ignored_partial.
+
+(* "every browser's set of currently added services": one provider and ANY NUMBER of passive browsers, each of type T or
+   enumerating all types, each with its own cache, each hearing every multicast response in order; after every handler
+   invocation of the provider every one of them reports exactly what the provider serves (reports_served spells out
+   the conclusion of C04_pair_converges_partial for one browser) *)
+Theorem C04_every_browser_converges_partial T c L ws :
+  T <> [] -> bytes_eqb T browse_type = false -> preachN T c L ws -> Forall (reports_served T c) ws.
+Proof. exact (every_browser_reports_what_is_served T c L ws). Qed.
+Print Assumptions C04_every_browser_converges_partial.
+
+(* Two providers of different service types (NetTwo.v): each a hostname + provider + prober composite on its own host, acting
+   in ANY interleaving; any number of browsers of type T1, each with its own cache, hear every multicast response of BOTH
+   providers, in order.  After every step each of them reports exactly what the provider of type T1 serves: the other
+   provider's traffic leaves them untouched (every message it puts on the link is a goodbye or an announcement of type T2 -
+   step_script - which a browser of type T1 ignores).  The types are unrelated: different, and T2 does not end in ".T1"
+   (C04_unrelated_when gives that condition; by symmetry the theorem applies to the browsers of type T2 as well). *)
+Theorem C04_browsers_follow_their_provider_partial T1 T2 c1 L1 c2 L2 ws :
+  T1 <> [] -> bytes_eqb T1 browse_type = false -> Unrelated T1 T2 ->
+  net2 T1 T2 c1 L1 c2 L2 ws -> Forall (reports_served T1 c1) ws.
+Proof. exact (browsers_follow_their_provider T1 T2 c1 L1 c2 L2 ws). Qed.
+Print Assumptions C04_browsers_follow_their_provider_partial.
+
+Theorem C04_unrelated_when T T' : bytes_eqb T' T = false -> ends_with ([DOT] ++ T) T' = false -> Unrelated T T'.
+Proof. exact (unrelated_when T T'). Qed.
+Print Assumptions C04_unrelated_when.
+
+Example C04_unrelated_example : Unrelated [95; 97; 46]%N [95; 98; 46]%N.      (* "_a." and "_b." *)
+Proof. exact unrelated_example. Qed.
